@@ -4,7 +4,7 @@
    (rewrite rules), ProofsOracle and ProofsReject (the boolean oracle). *)
 From Yv Require Import Common.Base C20.Model C20.Spec C20.Getopts.
 From Yv Require Export C20.ProofsNames C20.ProofsFields C20.ProofsMain C20.ProofsRules
-  C20.ProofsOracle C20.ProofsReject C20.ProofsExact C20.ProofsTables C20.ProofsGetopts.
+  C20.ProofsOracle C20.ProofsReject C20.ProofsExact C20.ProofsTables C20.ProofsGetopts C20.ProofsGetoptsSpell C20.ProofsKill C20.ProofsSet C20.ProofsTypeset.
 
 Lemma parse_iff_spells_lemma specs m args os ops :
   canon (parse specs m args) = Some (os, ops) <-> Spells specs m os ops args.
